@@ -397,7 +397,7 @@ func init() {
 			"optionally a pre-existing complete result, interval 1 s with reader stalls so that interim writes precede the final one). Crash points = every yield in front of a " +
 			"file-system operation in mapr/groupsetresult.go (open tmp, each WriteString, close, rename, remove, query-file write and rename): ALL of them are inspected in " +
 			"every run (the directory content at the yield is the post-kill state), and per process one point may really kill the process before the next one starts on the " +
-			"leftovers; non-trivial = more than 3 crash points inspected; distinct = (history shape, schedule hash). Evidence key probes.crash-points-inspected counts the points.",
+			"leftovers; in 15 % of the processes the disk fills up at a chosen write (that write and all later ones to the outfile, its tmp and query file fail with ENOSPC, nothing written; dmap then ends with a fatal error); a killed process has no further file-system effects although its deferred functions run; non-trivial = more than 3 crash points inspected; distinct = (history shape, schedule hash). Evidence key probes.crash-points-inspected counts the points.",
 		Real: []string{"internal/clients (MaprClient, periodic reporter)", "internal/mapr (GroupSet.WriteResult, writeQueryFile, getOutfileFD, resultWriteUnformatted)",
 			"internal/server/handlers + internal/mapr/server (serverless aggregation)", "real files on tmpfs"},
 		Stub: []string{"cmd/dmap main replica", "process kill = every goroutine of the process exits at its next yield point, completed system calls persist (SIGKILL model; no torn writes, no power loss)",
